@@ -15,17 +15,45 @@ from .. import custom, gen, model as M, refmodel as R
 KINDS = ["pose", "vertex", "odo", "lm", "custom", "graph"]
 RULE = ("cases from rng(seed, 17, 0, i): object category = i mod 6 of pose / vertex / odometry edge / landmark edge / custom edge / graph; y derived from x by (a) copy, (b) a single-"
         "component perturbation of magnitude 10^U(-12,3) x tol x max(||array||, tol) in one compared array, (c) a structural difference (other pose class of equal or different "
-        "size, other id, other edge class, other estimate kind/size, other information shape, extra element, swapped order); tol in 10^U(-12,-2); both directions evaluated. "
+        "size, other id, other edge class, other estimate kind/size, other information shape, instance of a subclass, extra element, swapped order; graphs whose vertices span scales 1e-3..1e4); tol in 10^U(-12,-2); both directions evaluated. "
         "distinct = fingerprint(x, mutation); non-trivial = mutation other than copy with a decided expectation.")
 REQ = ["eval:equals-never-raises", "eval:equals-expected-true", "eval:equals-expected-false", "cat:pose", "cat:vertex", "cat:odo", "cat:lm", "cat:custom", "cat:graph", "mut:copy",
        "mut:perturb_below", "mut:perturb_above", "mut:class_same_size", "mut:class_other_size", "mut:id", "mut:edge_class", "mut:estimate_size", "mut:information_shape",
-       "mut:graph_extra_element", "mut:graph_order", "mut:offset", "mut:offset_id"]
+       "mut:graph_extra_element", "mut:graph_order", "mut:offset", "mut:offset_id", "mut:edge_subclass", "class:graph_multi_scale"]
 PLAN = {
     "quick": {"cases": 12000, "soft_s": 60, "min_nontrivial": 3000, "require": REQ},
     "thorough": {"cases": 800000, "soft_s": 1200, "min_nontrivial": 200000, "require": REQ},
 }
 ASSUMPTIONS = ["pairs are drawn within one category (pose x pose, vertex x vertex, edge x edge, graph x graph); perturbations that carry an SE(2) angle across +-pi are excluded"]
 SAME_SIZE = {"se2": "r3", "r3": "se2"}
+
+
+class SubOdometry(M.EdgeOdometry):
+    """A user subclass of a built-in edge: a different type, hence never equal to a plain EdgeOdometry."""
+
+
+class SubLandmark(M.EdgeLandmark):
+    pass
+
+
+class SubDistance(custom.DistanceEdge):
+    pass
+
+
+class SubPosPrior(custom.PositionPriorEdge):
+    pass
+
+
+class SubPrior(custom.PriorEdge):
+    pass
+
+
+def subclass_instance(e):
+    sub = {M.EdgeOdometry: SubOdometry, M.EdgeLandmark: SubLandmark, custom.DistanceEdge: SubDistance, custom.PositionPriorEdge: SubPosPrior, custom.PriorEdge: SubPrior}[type(e)]
+    if isinstance(e, M.EdgeLandmark):
+        return sub(list(e.vertex_ids), e.information.copy(), e.estimate.copy(), e.offset.copy() if e.offset is not None else None, offset_id=e.offset_id)
+    est = e.estimate.copy() if hasattr(e.estimate, "copy") else e.estimate
+    return sub(list(e.vertex_ids), e.information.copy(), est)
 
 
 def mk_pose(rng, k):
@@ -150,7 +178,7 @@ def elem_case(ctx, cat, rng, tol):
     if cat != "pose":
         muts += ["id"]
     if cat in ("odo", "lm", "custom"):
-        muts += ["edge_class", "estimate_size", "information_shape", "n_vertex_ids"]
+        muts += ["edge_class", "edge_subclass", "estimate_size", "information_shape", "n_vertex_ids"]
     if cat == "lm":
         muts += ["offset", "offset_id", "offset_none"]
     mut = str(rng.choice(muts))
@@ -214,6 +242,8 @@ def elem_case(ctx, cat, rng, tol):
         s2["ids"] = list(spec["ids"])[: len(s2["ids"])] + list(s2["ids"])[len(spec["ids"]):]
         exp_xy = exp_yx = False
         feats.update(other=s2["type"])
+    elif mut == "edge_subclass":
+        exp_xy = exp_yx = False
     elif mut == "estimate_size":
         if spec.get("est_kind") in R.KINDS:
             ctx.skip("pose-typed estimate (covered by class mutations)")
@@ -238,7 +268,7 @@ def elem_case(ctx, cat, rng, tol):
         s2["off"] = None
         exp_xy = exp_yx = False
     try:
-        y = build_obj(cat, s2)
+        y = subclass_instance(x) if mut == "edge_subclass" else build_obj(cat, s2)
     except Exception:
         ctx.skip("mutated object could not be constructed")
         return
@@ -262,6 +292,14 @@ def graph_case(ctx, rng, tol):
     mut = str(rng.choice(["copy", "perturb_vertex", "perturb_edge", "graph_extra_element", "graph_order", "class_other_size"]))
     exp = None
     feats = {"category": "graph", "mutation": mut}
+    if rng.random() < 0.5:
+        # vertices spanning very different scales (a trajectory from the origin out to kilometres): every element is compared on its own scale
+        for v in spec["vertices"]:
+            nt = {"r2": 2, "r3": 3, "se2": 2, "se3": 3}[v["kind"]]
+            sc = float(10 ** rng.uniform(-3, 4))
+            v["pose"] = [x * sc for x in v["pose"][:nt]] + list(v["pose"][nt:])
+        s2 = gen.copy_spec(spec)
+        ctx.count("class:graph_multi_scale")
     if mut == "copy":
         exp = (True, True)
     elif mut in ("perturb_vertex", "perturb_edge"):
